@@ -29,7 +29,8 @@ R = [
     (r"^<PageTreeIter as Iterator>::next$", r"overflow:Sub", r"iter_limit,1", "SAFE", "dominated by `iter_limit == 0 -> return None` (re-verified by C12's R-TERM rule)"),
     (r"^<PageTreeIter as Iterator>::next$", r"unwrap", r"self.kids", "SAFE", "`kids` was just assigned Some(..) or checked by the while-let in the same iteration (state machine of next)"),
     (r"^Document::decrypt_raw$", r"unwrap", r"Encrypt", "SAFE", "`trailer.get(b\"Encrypt\")?` earlier in the same body succeeded and nothing removes the key in between"),
-    (r"^Document::dereference$|^Document::get_page_contents$", r"overflow:Add", r"nb_deref,1", "SAFE", "counter compared against a small limit before each increment (DEREF_LIMIT / loop bound)", [{'kind': 'exists', 'fn': 'Document::dereference', 'cond': 'Gt\\(\\$\\d+,\\d+\\)'}]),
+    (r"^Document::dereference$", r"overflow:Add", r"nb_deref,1", "SAFE", "counter compared against a small limit after each increment (DEREF_LIMIT)", [{'kind': 'exists', 'fn': 'Document::dereference', 'cond': 'Gt\\(\\$\\d+,\\d+\\)'}]),
+    (r"^Document::get_page_contents$", r"overflow:Add", r"nb_deref,1", "SAFE", "counter compared against a small limit after each increment (the walk continues only while it is below DEREF_LIMIT)", [{'kind': 'exists', 'fn': 'Document::get_page_contents', 'cond': 'Lt\\(\\$\\d+,\\d+\\)'}]),
     (r"^Document::get_object_mut$", r"unwrap", r"get_mut", "SAFE", "the id was just resolved by get_object()/dereference() on the same map"),
     (r"^Document::get_outlines$", r"unwrap", r"node", "SAFE", "dominated by `node.is_none() -> return`"),
     (r"^Document::get_pages::\{closure#0\}$", r"overflow:Add", r"i,1", "SAFE", "i enumerates yielded pages (< objects.len() <= usize::MAX/size_of object)"),
